@@ -206,4 +206,51 @@ theorem memory_write_visible (s : State) (oi oj : Nat) (o oJ : Obj)
       rw [h2.2.2.2.1, hf.2.2.2.1, hreg.2.2.2.1]
     rw [hc, hcell]
 
+
+/-! ### recorded metadata (C07) -/
+
+/-- A forced shared-memory flush keeps the entry; it changes the entry's recorded metadata ONLY when
+it has just written the file with the buffered data, and then to the metadata of exactly that
+write.  (The defect fixed in e2e2336 refreshed it also for entries it had not written, adopting an
+outside writer's file state.) -/
+theorem forced_flush_refreshes_only_what_it_wrote (s : State) (oi : Nat) (o : Obj) (e : Entry)
+    (he : s.entry o.res = some e) :
+    ∃ e', (flushMem s oi o true).1.entry o.res = some e' ∧ e'.modified = false ∧
+      (e'.fmeta = e.fmeta ∨
+       ((flushMem s oi o true).2 = none ∧
+        (flushMem s oi o true).1.store o.res = some (s.cellData e.cell).toBase ∧
+        e'.fmeta = (flushMem s oi o true).1.stat o.res)) := by
+  unfold flushMem
+  simp only [Bool.or_true, if_true, he]
+  cases hm : e.modified
+  · simp only [Bool.false_eq_true, if_false, Bool.not_true]
+    exact ⟨_, entry_setEntry _ _ _, rfl, Or.inl rfl⟩
+  · simp only [if_true, Bool.not_true, Bool.false_eq_true, if_false]
+    split
+    · exact ⟨_, entry_setEntry _ _ _, rfl, Or.inl rfl⟩
+    · cases hts : trySave (s.setObj oi { o with cell := e.cell }) { o with cell := e.cell } with
+      | mk s1 werr =>
+        cases werr with
+        | some er => exact ⟨_, entry_setEntry _ _ _, rfl, Or.inl rfl⟩
+        | none =>
+          simp only
+          refine ⟨_, entry_setEntry _ _ _, rfl, Or.inr ⟨trivial, ?_, ?_⟩⟩
+          · -- the write happened: s1 is the state after writeFile
+            have hs1 : s1 = saveToResource (s.setObj oi { o with cell := e.cell }) { o with cell := e.cell } := by
+              unfold trySave at hts
+              split at hts
+              · simp at hts
+              · simp only [Prod.mk.injEq, and_true] at hts; exact hts.symm
+            subst hs1
+            simp [State.store, saveToResource, State.writeFile, State.setEntry, State.root, State.setObj, State.cellData]
+          · simp [State.stat, State.setEntry]
+
+/-- a serialized buffered save into an existing entry never touches the metadata recorded when the
+file entered the buffer -/
+theorem saveSer_keeps_metadata (s0 : State) (o : Obj) (e : Entry) (he : s0.entry o.res = some e) :
+    ∃ e', (saveSer s0 o).entry o.res = some e' ∧ e'.fmeta = e.fmeta := by
+  unfold saveSer
+  simp only [he]
+  exact ⟨_, entry_setEntry _ _ _, rfl⟩
+
 end SC.B
